@@ -212,10 +212,12 @@ func (k Keeper) ForceValidatorUnstake(ctx sdk.Ctx, validator types.Validator) sd
 	if validator.IsUnstaking() {
 		k.deleteUnstakingValidator(ctx, validator)
 	}
-	// amount unstaked = stakedTokens
-	err := k.burnStakedTokens(ctx, validator.StakedTokens)
-	if err != nil {
-		return err
+	// amount unstaked = stakedTokens (nothing is left to burn when a slash already took the whole stake)
+	if validator.StakedTokens.IsPositive() {
+		err := k.burnStakedTokens(ctx, validator.StakedTokens)
+		if err != nil {
+			return err
+		}
 	}
 	// remove their tokens from the field
 	validator = validator.RemoveStakedTokens(validator.StakedTokens)
